@@ -3,6 +3,11 @@ import Usual.C07.AATree
 /-! Model driver for C07 (AA-tree).  Line protocol, see harness/C07/h.c:
 
     ins K | rem K | find K | walk in|pre|post | destroy | count        (K: -?[0-9]{1,18})
+    tN <op>                      (op goes to tree N = 0..2, default 0; tree 2 has no release callback:
+                                  it never logs a release, and `destroy` is refused unless it is empty)
+    cmp sign|diff|sat            (all trees re-created; comparator variant of the harness — the model's
+                                  comparator is the integer order in every case; under `diff` keys with
+                                  |K| ≥ 2^30 are bad-op)
     reins K                      (insert K again with the node already linked for K; nothing if absent)
     perms n ilo ihi jlo jhi      (range-hash over insertion order × removal order of 1..n)
 
@@ -135,63 +140,106 @@ def hashOp (acc : State K × UInt64 × UInt64) (o : Op K) : State K × UInt64 ×
     | _, _ => "rem"
   (s'', fnvStr (fnvStr ho (mutObs r s'' rel)) "\n", fnvStr (fnvStr hi (showShape s''.root)) "\n")
 
-/-- hash stream of `perms`: for each insertion order the n insertion lines and the n lines
-    `reins 1` .. `reins n` once, then for each
+/-- keys used by `perms`: 1..n, or (under the saturating comparator) multiples of 2^31 -/
+def permKey (sat : Bool) (e : Nat) : K :=
+  if sat then (Int.ofNat e - 3) * 2147483648 else Int.ofNat e
+
+/-- hash stream of `perms`: for each insertion order the n insertion lines, the n lines
+    `reins 1` .. `reins n` and the n+1 lines `find 0` .. `find n` once, then for each
     removal order the n removal lines (each removal order starts from the state after the inserts) -/
-def permsRow (n jlo jhi : Nat) (h : UInt64 × UInt64) (i : Nat) : UInt64 × UInt64 :=
-  let insOps : List (Op K) := (nthPerm n i).map (fun k => Op.ins (Int.ofNat k))
+def permsRow (sat : Bool) (n jlo jhi : Nat) (h : UInt64 × UInt64) (i : Nat) : UInt64 × UInt64 :=
+  let insOps : List (Op K) := (nthPerm n i).map (fun k => Op.ins (permKey sat k))
   let (si, ho, hi) := insOps.foldl hashOp ((init : State K), h.1, h.2)
   let (si, ho, hi) := (List.range n).foldl (fun (acc : State K × UInt64 × UInt64) t =>
     let (s, ho, hi) := acc
-    let (s', o, i) := doReins s (Int.ofNat (t + 1))
+    let (s', o, i) := doReins s (permKey sat (t + 1))
     (s', fnvStr (fnvStr ho o) "\n", fnvStr (fnvStr hi i) "\n")) (si, ho, hi)
+  let (ho, hi) := (List.range (n + 1)).foldl (fun (h : UInt64 × UInt64) t =>
+    let line := match search cmpK si.root (permKey sat t) with
+      | some x => s!"f=1:{x}"
+      | none => "f=0"
+    (fnvStr (fnvStr h.1 line) "\n", fnvStr h.2 "\n")) (ho, hi)
   (List.range (jhi - jlo)).foldl (fun h dj =>
-    let remOps : List (Op K) := (nthPerm n (jlo + dj)).map (fun k => Op.rem (Int.ofNat k))
+    let remOps : List (Op K) := (nthPerm n (jlo + dj)).map (fun k => Op.rem (permKey sat k))
     let (_, ho, hi) := remOps.foldl hashOp (si, h.1, h.2)
     (ho, hi)) (ho, hi)
 
-def permsRange (n ilo ihi jlo jhi : Nat) : UInt64 × UInt64 :=
-  (List.range (ihi - ilo)).foldl (fun h di => permsRow n jlo jhi h (ilo + di)) (fnvInit, fnvInit)
+def permsRange (sat : Bool) (n ilo ihi jlo jhi : Nat) : UInt64 × UInt64 :=
+  (List.range (ihi - ilo)).foldl (fun h di => permsRow sat n jlo jhi h (ilo + di)) (fnvInit, fnvInit)
 
 def parseNat (s : String) : Option Nat :=
   let cs := s.toList
   if cs.isEmpty || cs.length > 9 || !cs.all Char.isDigit then none
   else some (cs.foldl (fun acc c => acc * 10 + (c.toNat - '0'.toNat)) 0)
 
-def doPerms (a b c d e : String) : Option String :=
+def doPerms (sat : Bool) (a b c d e : String) : Option String :=
   match parseNat a, parseNat b, parseNat c, parseNat d, parseNat e with
   | some n, some ilo, some ihi, some jlo, some jhi =>
     if n < 1 || n > 9 || ilo > ihi || jlo > jhi || ihi > factorial n || jhi > factorial n then none
     else
-      let (ho, hi) := permsRange n ilo ihi jlo jhi
+      let (ho, hi) := permsRange sat n ilo ihi jlo jhi
       some s!"ph={hex64 ho} ## {hex64 hi}"
   | _, _, _, _, _ => none
 
-def stepLine (s : State K) (line : String) : State K × String :=
+/-- comparator variant of the harness: 0 sign, 1 plain difference, 2 saturated difference -/
+structure DS where
+  mode : Nat
+  t0 : State K
+  t1 : State K
+  t2 : State K
+
+def dsInit (mode : Nat) : DS := { mode := mode, t0 := init, t1 := init, t2 := init }
+
+def keyOk (mode : Nat) (k : K) : Bool := mode != 1 || (-1073741824 < k && k < 1073741824)
+
+/-- ops on one tree; `nocb`: the tree was created without release callback -/
+def treeOp (mode : Nat) (nocb : Bool) (s : State K) (ws : List String) : Option (State K × String) :=
+  let key (k : String) : Option K := (parseKey k).filter (keyOk mode)
+  -- without callback nothing is ever logged
+  let fin (r : State K × String) : State K × String := r
+  let quietRel (s : State K) : State K := if nocb then { s with log := [] } else s
+  match ws with
+  | ["ins", k] => (key k).map fun k => fin (doOp s (.ins k))
+  | ["rem", k] => (key k).map fun k =>
+      if nocb then
+        -- the model's remove without the callback: same tree and count, empty log
+        let (s', _) := step cmpK s (.rem k)
+        let s'' := quietRel { s' with log := [] }
+        (s'', mutLine "rem" s'' [])
+      else doOp s (.rem k)
+  | ["reins", k] => (key k).map fun k => let (s', o, i) := doReins s k; (s', s!"{o} ## {i}")
+  | ["find", k] => (key k).map fun k => doOp s (.find k)
+  | ["walk", "in"] => some (doOp s (.walk .inOrder))
+  | ["walk", "pre"] => some (doOp s (.walk .preOrder))
+  | ["walk", "post"] => some (doOp s (.walk .postOrder))
+  | ["destroy"] =>
+      -- aatree_destroy calls the callback unconditionally: not exercised without one
+      if nocb && !isNil s.root then none else some (doOp s .destroy)
+  | ["count"] => some (doOp s .count)
+  | _ => none
+
+def stepLine (d : DS) (line : String) : DS × String :=
   match words line with
-  | ["#case"] => (init, "#case")
-  | ["ins", k] => match parseKey k with
-    | some k => doOp s (.ins k)
-    | none => (s, "bad-op")
-  | ["rem", k] => match parseKey k with
-    | some k => doOp s (.rem k)
-    | none => (s, "bad-op")
-  | ["reins", k] => match parseKey k with
-    | some k => let (s', o, i) := doReins s k; (s', s!"{o} ## {i}")
-    | none => (s, "bad-op")
-  | ["find", k] => match parseKey k with
-    | some k => doOp s (.find k)
-    | none => (s, "bad-op")
-  | ["walk", "in"] => doOp s (.walk .inOrder)
-  | ["walk", "pre"] => doOp s (.walk .preOrder)
-  | ["walk", "post"] => doOp s (.walk .postOrder)
-  | ["destroy"] => doOp s .destroy
-  | ["count"] => doOp s .count
-  | ["perms", a, b, c, d, e] => match doPerms a b c d e with
-    | some r => (init, r)
-    | none => (s, "bad-op")
-  | _ => (s, "bad-op")
+  | ["#case"] => (dsInit 0, "#case")
+  | ["cmp", "sign"] => (dsInit 0, "cmp=sign")
+  | ["cmp", "diff"] => (dsInit 1, "cmp=diff")
+  | ["cmp", "sat"] => (dsInit 2, "cmp=sat")
+  | ["perms", a, b, c, e, f] => match doPerms (d.mode == 2) a b c e f with
+    | some r => (dsInit d.mode, r)
+    | none => (d, "bad-op")
+  | "t1" :: ws => match (if ws.isEmpty then none else treeOp d.mode false d.t1 ws) with
+    | some (s, o) => ({ d with t1 := s }, o)
+    | none => (d, "bad-op")
+  | "t2" :: ws => match (if ws.isEmpty then none else treeOp d.mode true d.t2 ws) with
+    | some (s, o) => ({ d with t2 := s }, o)
+    | none => (d, "bad-op")
+  | "t0" :: ws => match (if ws.isEmpty then none else treeOp d.mode false d.t0 ws) with
+    | some (s, o) => ({ d with t0 := s }, o)
+    | none => (d, "bad-op")
+  | ws => match treeOp d.mode false d.t0 ws with
+    | some (s, o) => ({ d with t0 := s }, o)
+    | none => (d, "bad-op")
 
 end C07Drv
 
-def main : IO Unit := Usual.runDriver (Usual.C07.init : Usual.C07.State C07Drv.K) C07Drv.stepLine
+def main : IO Unit := Usual.runDriver (C07Drv.dsInit 0) C07Drv.stepLine
